@@ -113,6 +113,14 @@ CHECKS = {
             "by run_with_reference stashed in 12 kinds of places must fail on every later use, leave the host object untouched and allow a second lend.",
             "Trusted: the expectations (Rust's TryFrom). Registered Custom structs by value, tuples beyond pairs and functions of arity > 3 are not in the grid yet.",
             "DESIGN.md §3 C20"),
+    "C18": ("exploration",
+            "complete enumeration of a finite shape x operation x size-ladder grid, every cell executed in a forked child of the real engine with the default native stack",
+            "13 chain shapes (through every container kind, closures, mixed), 5 wide shapes and 6 cycle shapes x 11 operations (build, drop, equal? with a twin / itself, "
+            "hash key, print, display to a port, survive a collection, be collected, round trip through another thread, run inside a thread) x depth 10^3, 10^4, 10^5 "
+            "(thorough 10^6; widths x10; cycle lengths 1,2,3,10,10^4). A cell must end normally with a value or an error value and the right answer; a signal, abort or "
+            "panic is a violation at the smallest failing rung; time-outs are violations for cycles (termination) and inconclusive otherwise.",
+            "Trusted: the ladder stands for 'any depth' (a cell that passes 10^5/10^6 with an 8 MiB stack is taken to be depth independent).",
+            "DESIGN.md §3 C18"),
 }
 
 NOT_YET = {}
